@@ -1,4 +1,5 @@
 CONSTANT DIE_PRINTS = TRUE
+CONSTANT TEXT_ONLY_ARGS = FALSE
 SPECIFICATION Spec
 INVARIANTS Inv_Discipline
 CHECK_DEADLOCK FALSE
